@@ -101,6 +101,41 @@ pub fn run(ctx: &Ctx) -> Report {
     let nested_cases: Vec<Case> = nested.iter().flat_map(|b| (0..b.len()).map(move |k| Case::new("prefix", b.clone()).args(&[k as i64]))).collect();
     let mut acc_nested = sweep(nested_cases.into_par_iter(), judge);
     acc_nested.nontrivial += n_nested;
+    // every (class, method) pair (all 16 384 type-field values) x five small bodies whose last
+    // attribute has an unaligned / empty / aligned value (a relayed datagram in a DATA attribute, a
+    // short text + FINGERPRINT ...), every cut point: a leniency tied to one method or message type
+    // has to be one of these
+    let acc_types = (0..16384u32)
+        .into_par_iter()
+        .fold(Acc::default, |mut acc, cm| {
+            let (class, method) = ((cm >> 12) as u8, (cm & 0xFFF) as u16);
+            let tidv: u128 = 0x3132_3334_3536_3738_393A_3B3C;
+            for body in 0..5u8 {
+                let mut b = wire::encode_header(class, method, tidv, 0);
+                match body {
+                    0 => wire::append_raw(&mut b, 0x0013, &[1, 2, 3, 4, 5]),
+                    1 => {
+                        wire::append_raw(&mut b, 0x8022, b"x");
+                        wire::append_fp(&mut b);
+                    }
+                    2 => {
+                        wire::append_raw(&mut b, 0x0012, &[0, 1, 0x21, 0x12, 0x21 ^ 10, 0x12, 0xA4, 0x43]);
+                        wire::append_raw(&mut b, 0x0013, &[9, 8, 7]);
+                    }
+                    3 => wire::append_raw(&mut b, 0x0013, &[]),
+                    _ => wire::append_raw(&mut b, 0x0013, &[1, 2, 3, 4, 5, 6]),
+                }
+                if wire::decode(&b).is_err() {
+                    continue;
+                }
+                acc.nontrivial += 1;
+                for k in 0..b.len() {
+                    judge_guarded(judge, &Case::new("prefix", b.clone()).args(&[k as i64]), &mut acc);
+                }
+            }
+            acc
+        })
+        .reduce(Acc::default, |a, b| a.merge(b));
     // messages around the 16-bit length boundary: cut points 0..=300, the last 300, every power
     // of two +-1 and every 251st in between (the parser answers a short prefix from the header alone)
     let mut huge: Vec<Vec<u8>> = Vec::new();
@@ -191,11 +226,11 @@ pub fn run(ctx: &Ctx) -> Report {
         }
     }
     let acc3 = acc3.merge(sweep(hcases.into_par_iter(), judge));
-    let acc = acc1.merge(acc2).merge(acc3).merge(acc_nested);
+    let acc = acc1.merge(acc2).merge(acc3).merge(acc_nested).merge(acc_types);
     Report {
         acc,
         exhaustive: true,
-        rule: "every well-formed message of the skeleton space (x4 header variants, one per class), 144 messages carrying a relayed STUN message or a value that reads as a sealing attribute at four alignments, and 10 builder-made messages with attribute lengths up to 763 x every cut point 0..len; 5 messages of 4 KiB .. 65 552 bytes x cut points {0..=300, last 300, powers of two +-1, every 251st}; header decoder on all 65536 type fields x 7 length fields x cookie ok/off, all 65536 length fields x 3 types, every cookie bit, walking-one / walking-zero / byte-lane transaction ids; distinct_nontrivial counts the well-formed messages".into(),
+        rule: "every well-formed message of the skeleton space (x4 header variants, one per class), all 16 384 (class, method) pairs x five small bodies (unaligned / empty / aligned last attribute, FINGERPRINT), 144 messages carrying a relayed STUN message or a value that reads as a sealing attribute at four alignments, and 10 builder-made messages with attribute lengths up to 763 x every cut point 0..len; 5 messages of 4 KiB .. 65 552 bytes x cut points {0..=300, last 300, powers of two +-1, every 251st}; header decoder on all 65536 type fields x 7 length fields x cookie ok/off, all 65536 length fields x 3 types, every cookie bit, walking-one / walking-zero / byte-lane transaction ids; distinct_nontrivial counts the well-formed messages".into(),
         bounds: json!({"skeletons": sk.len(), "cut_points": "all", "header_space": 65536 * 14}),
         assumptions: vec![],
         ..Default::default()
